@@ -376,6 +376,96 @@ func c08Methods(c *mon.Ctx) {
 	}
 }
 
+// Wrapper-like structs whose hidden / unexported fields carry "payload"
+// names (Value, Data, Raw ...), and unexported fields that hold CONTAINERS a
+// selector could walk into.
+type c08Payload struct {
+	Label   string
+	Value   int    `bexpr:"-" alt:"-"`
+	Data    string `bexpr:"-" alt:"-"`
+	Raw     []byte `bexpr:"-" alt:"-"`
+	Items   []int  `bexpr:"-" alt:"-"`
+	value   int
+	payload map[string]interface{}
+	attrs   map[string]map[string]interface{}
+	inner   *c08Payload
+	list    []map[string]interface{}
+	Elem    interface{} `bexpr:"-" alt:"-"`
+	shape   interface{} // a map in one datum of a pair, a plain string in the other
+	Shape   interface{} `bexpr:"-" alt:"-"`
+}
+
+func c08Containers(c *mon.Ctx) {
+	mk := func(a int, sfx string) c08Payload {
+		return c08Payload{Label: "l", Value: a, Data: "d" + sfx, Raw: []byte("r" + sfx), Items: []int{a}, value: a, payload: map[string]interface{}{"k": a, "q": sfx},
+			attrs: map[string]map[string]interface{}{"k": {"q": sfx}}, inner: &c08Payload{Label: sfx, value: a}, list: []map[string]interface{}{{"k": a}}, Elem: map[string]interface{}{"k": a}}
+	}
+	a, b := mk(1, "1"), mk(2, "2")
+	a.shape, a.Shape = map[string]interface{}{"k": map[string]string{"z": "1"}}, map[string]interface{}{"k": map[string]string{"z": "1"}}
+	b.shape, b.Shape = "plain", []int{1}
+	wrap := []func(v c08Payload) interface{}{
+		func(v c08Payload) interface{} { return v },
+		func(v c08Payload) interface{} { return &v },
+		func(v c08Payload) interface{} {
+			return map[string]interface{}{"p": v, "l": []c08Payload{v}, "m": map[string]*c08Payload{"k": &v}}
+		},
+	}
+	exprs := [][]string{
+		{`Value == 1`, `Data == d1`, `value == 1`, `payload.k == 1`, `payload.zz != 1`, `attrs.k.q != "1"`, `attrs.k.q == "1"`, `attrs.k.zz is empty`, `attrs.zz.q != "1"`, `inner.Label == "1"`, `inner.zz != 1`, `list.0.k == 1`, `Elem.k == 1`, `Elem.zz != 1`,
+			`"/attrs/k/q" != "1"`, `any attrs as k, v { v.q == "1" }`, `all payload as k { k != zz }`, `Items.0 == 1`, `1 in Items`, `Raw == r1`, `Label == l and attrs.k.q != "2"`,
+			`shape.missing != "v"`, `shape.k.q is empty`, `"abc" not in "/shape/k/q"`, `Label == l and not (shape.k.q == "1")`, `shape.k.z == "1"`, `Shape.k.q is empty`, `Shape.missing != 1`, `any shape as k { k == k }`, `shape is empty`},
+		nil,
+		{`p == 1`, `p != 1`, `p == "d1"`, `p matches "1"`, `1 in p`, `"d1" in p`, `p is empty`, `p.Value == 1`, `p.attrs.k.q != "1"`, `p.payload.zz != 1`, `p.inner.zz != 1`, `p.Elem.zz != 1`, `p.list.0.zz != 1`, `l.0 == 1`, `1 in l`, `any l as v { v == 1 }`,
+			`any l as v { v.attrs.k.q != "1" }`, `all l as v { v.payload.zz != 1 }`, `m.k == 1`, `m.k.attrs.k.zz is empty`, `any m as _, v { v == "d1" }`, `any m as _, v { v.inner.zz != 1 }`, `any p as k, v { v == 1 }`, `all p as k { k != Value }`,
+			`p.shape.missing != "v"`, `p.shape.k.q is empty`, `any l as v { v.shape.k.q is empty }`, `m.k.shape.zz != 1`, `p.Shape.k.q is empty`},
+	}
+	exprs[1] = exprs[0]
+	for wi, w := range wrap {
+		d1, d2 := w(a), w(b)
+		for _, tag := range []string{"", "alt"} {
+			for _, e := range exprs[wi] {
+				for _, unk := range []bool{false, true} {
+					var opts []bexpr.Option
+					if tag != "" {
+						opts = append(opts, bexpr.WithTagName(tag))
+					}
+					if unk {
+						opts = append(opts, bexpr.WithUnknownValue("1"))
+					}
+					ev, err, pan, _ := createEval(e, opts...)
+					if pan != "" || err != nil {
+						continue
+					}
+					o1, o2 := evaluate(ev, d1), evaluate(ev, d2)
+					c.Evals(2)
+					c.Count("hidden_container_evaluations")
+					if wi < 2 && !unk && (o1.Class() != "E" || o2.Class() != "E") {
+						c.Violation("C08 hidden-field-resolved hidden-containers "+o1.Class()+"/"+o2.Class(), "a selector that goes through a hidden / unexported field did not fail",
+							map[string]any{"expression": e, "tag": tag, "holder": wi, "outcome1": o1.String(), "outcome2": o2.String()})
+						continue
+					}
+					if o1.Class() != o2.Class() {
+						c.Violation("C08 evaluate-differs hidden-containers "+o1.Class()+"-vs-"+o2.Class(), "two data that differ only in hidden / unexported fields (payload-named fields, unexported maps / pointers / lists) gave different outcomes",
+							map[string]any{"expression": e, "tag": tag, "unknown_value_configured": unk, "holder": wi, "outcome1": o1.String(), "outcome2": o2.String()})
+					}
+				}
+			}
+		}
+	}
+	for _, fe := range []string{`Value == 1`, `attrs.k.q != "1"`, `payload.zz != 1 or Label == zz`, `inner.zz != 1 or Label == zz`, `Label == l and Elem.zz != 1`, `shape.k.q != "1"`, `shape.zz is empty`, `Shape.k.q != "1"`} {
+		f, _ := bexpr.CreateFilter(fe)
+		if f == nil {
+			continue
+		}
+		x1, x2 := execute(f, []c08Payload{a, a}), execute(f, []c08Payload{b, b})
+		c.Evals(2)
+		if lenOf(x1.out) != lenOf(x2.out) || (x1.err == nil) != (x2.err == nil) {
+			c.Violation("C08 filter-selection-differs hidden-containers", "Filter.Execute kept different elements on data that differ only in hidden fields", map[string]any{"expression": fe, "kept1": lenOf(x1.out), "kept2": lenOf(x2.out), "err1": fmt.Sprint(x1.err), "err2": fmt.Sprint(x2.err)})
+		}
+	}
+	c.Count("hidden_container_scenarios")
+}
+
 var c08AltTags = []string{"alt", "x-filter", "bexpr.v2", "BEXPR", "json", "a+b", "bexpr_", "ключ", "alt"}
 
 func c08Run(c *mon.Ctx, idx int) {
@@ -388,6 +478,9 @@ func c08Run(c *mon.Ctx, idx int) {
 	}
 	if idx%200 == 2 {
 		c08Methods(c)
+	}
+	if idx%200 == 3 {
+		c08Containers(c)
 	}
 	doc := univ.GenObj(r, 3, true)
 	seed := r.Int63()
@@ -536,7 +629,7 @@ func init() {
 		NumCases:    func(tier string) int { return tierN(tier, 6000, 300000) },
 		Run:         c08Run,
 		Required: func(tier string) []string {
-			return []string{"pairs_differing_in_hidden_content", "same_named_type_histories", "embedded_struct_scenarios", "method_bearing_type_scenarios", "aimed:hidden", "aimed:unexported", "aimed:renamed-by-go-name", "aimed:enclosing-struct", "filter_pairs", "filter_pairs_with_selection", "outcome:T", "outcome:F", "outcome:E"}
+			return []string{"pairs_differing_in_hidden_content", "same_named_type_histories", "embedded_struct_scenarios", "method_bearing_type_scenarios", "hidden_container_scenarios", "aimed:hidden", "aimed:unexported", "aimed:renamed-by-go-name", "aimed:enclosing-struct", "filter_pairs", "filter_pairs_with_selection", "outcome:T", "outcome:F", "outcome:E"}
 		},
 	})
 }
